@@ -206,6 +206,9 @@ class Attribute(_BaseAttribute):
     def __getitem__(self, key):
         if key in self._data:
             return self._data[key]
+        if self.elemsize>1 and isinstance(self.default_value, np.ndarray):
+            # hand out a copy: the default vector is shared by every unset entry
+            return self.default_value.copy()
         return self.default_value
 
     def __setitem__(self, key, value):
